@@ -62,6 +62,8 @@ def opsNewton (op : String) (ins outs : List String) : Option String :=
     match Verdict.findCert eqs e u vars 5 with
     | some k => pure s!"ok exactly-one-zero-certified {kind} shrink={k}"
     | none =>
+      if !square && Verdict.certifiedSplit eqs e u vars 3 then
+        pure "ok exactly-one-zero-certified with-parameters parameter-ranges-subdivided" else
       let uniq := Box.subset e u && Newton.uniqueCertVars eqs u vars
       let exKnown := zs.any fun p => Verdict.ratZero eqs p && Verdict.ratIn p e
       pure s!"ok {kind} {if uniq then "uniqueness-certified" else "uniqueness-uncertified"} {if square && exKnown then "existence-by-known-zero" else "existence-uncertified"}"
